@@ -21,7 +21,7 @@ import (
 )
 
 type vC02Step struct {
-	T string `json:"t"` // pin | unpin | hold | release | age
+	T string `json:"t"` // pin | unpin | hold | release | age | restart (Shutdown, one pin of C/V after it, new Consensus on the same datastore)
 	C int    `json:"c,omitempty"`
 	V int    `json:"v,omitempty"`
 	// Bad (pin only): the pin cannot be serialised (its name is not valid UTF-8, which the REST API lets through as
@@ -205,6 +205,27 @@ func vC02BGen(r *vRand) (vC02BCase, string) {
 		}
 		c.Steps = append(c.Steps, vC02Step{T: "age"}, fin, vC02Step{T: "age"})
 		return c, "both"
+	case x < 90: // restart: Shutdown with operations in the open batch and in the queue, a new Consensus on the same datastore
+		c := vC02BCase{Size: r.rng(2, 5), AgeMs: 3600000, Qcap: r.rng(3, 6)}
+		if r.chance(40) {
+			c.AgeMs = r.rng(20, 45)
+		}
+		if r.chance(15) {
+			c.Size, c.AgeMs = 0, 0 // no batching: every write is committed before LogPin returns
+		}
+		for n := r.rng(1, 2); n > 0; n-- {
+			c.Steps = append(c.Steps, vc02GenOps(r, r.rng(0, 3), hot)...)
+			if r.chance(50) {
+				c.Steps = append(c.Steps, vC02Step{T: "hold"})
+				c.Steps = append(c.Steps, vc02GenOps(r, r.rng(1, c.Qcap), hot)...)
+			}
+			c.Steps = append(c.Steps, vC02Step{T: "restart", C: r.intn(vc02NCids), V: r.intn(vc02NVariants)})
+		}
+		c.Steps = append(c.Steps, vc02GenOps(r, r.rng(0, 3), hot)...)
+		if c.AgeMs > 0 && c.AgeMs < 1000 {
+			c.Steps = append(c.Steps, vC02Step{T: "age"})
+		}
+		return c, "restart"
 	default: // queue smaller than the burst: the worker is held inside Add/Rm while a burst arrives
 		c := vC02BCase{Size: r.rng(1, 4), AgeMs: 3600000, Qcap: r.rng(1, 3), Fail: vc02GenFails(r, 6)}
 		if r.chance(30) {
@@ -227,6 +248,7 @@ func vC02BBoundary(i int) (vC02BCase, string) {
 	pin := func(c, v int) vC02Step { return vC02Step{T: "pin", C: c, V: v} }
 	unpin := func(c int) vC02Step { return vC02Step{T: "unpin", C: c} }
 	bad := func(c, v int) vC02Step { return vC02Step{T: "pin", C: c, V: v, Bad: true} }
+	restart := func(c, v int) vC02Step { return vC02Step{T: "restart", C: c, V: v} }
 	age := vC02Step{T: "age"}
 	cases := []vC02BCase{
 		// age-limit commit fails, batch then reaches the size limit, one more operation (S2 shape)
@@ -277,6 +299,13 @@ func vC02BBoundary(i int) (vC02BCase, string) {
 		// the first Rm of a batch fails (datastore query error): the age timer is armed for an empty batch
 		{Size: 10, AgeMs: 30, Qcap: 10, FailQuery: []int{1}, Steps: []vC02Step{unpin(0), age, pin(1, 1), age}},
 		{Size: 10, AgeMs: 30, Qcap: 10, FailQuery: []int{2}, Steps: []vC02Step{pin(0, 1), unpin(0), age, unpin(0), age, age}},
+		// Shutdown with an open batch; with operations still in the queue too (the worker is held while they arrive); with
+		// nothing pending; right after a size commit; twice; without batching
+		{Size: 10, AgeMs: 3600000, Qcap: 10, Steps: []vC02Step{pin(0, 1), pin(1, 2), restart(2, 3), pin(2, 4)}},
+		{Size: 10, AgeMs: 3600000, Qcap: 10, Steps: []vC02Step{pin(0, 1), {T: "hold"}, pin(2, 3), pin(1, 2), unpin(0), restart(0, 5), pin(0, 6)}},
+		{Size: 3, AgeMs: 30, Qcap: 10, Steps: []vC02Step{pin(0, 1), age, restart(1, 1), pin(1, 2), age}},
+		{Size: 2, AgeMs: 3600000, Qcap: 10, Steps: []vC02Step{pin(0, 1), pin(1, 2), restart(2, 3), pin(2, 4), restart(2, 5), pin(0, 7), pin(1, 8)}},
+		{Size: 0, AgeMs: 0, Qcap: 10, Steps: []vC02Step{pin(0, 1), unpin(0), pin(1, 2), restart(2, 3), pin(2, 4)}},
 		// direct writes with failing commits
 		{Size: 0, AgeMs: 0, Qcap: 10, Fail: []int{1, 3}, Steps: []vC02Step{pin(0, 1), pin(0, 2), pin(1, 1), unpin(0), unpin(0)}},
 		{Size: 0, AgeMs: 0, Qcap: 10, Fail: []int{2, 4}, Steps: []vC02Step{pin(0, 1), pin(0, 2), pin(1, 1), unpin(0), unpin(0), unpin(1)}},
@@ -311,6 +340,11 @@ func (c *vC02BCase) sanitize() {
 	}
 	if c.AgeMs > 0 && c.AgeMs < 10 {
 		c.AgeMs = 10
+	}
+	for _, st := range c.Steps {
+		if st.T == "restart" { // a restart case has no injected datastore failure: whatever is missing afterwards was lost by Shutdown
+			c.Fail, c.FailQuery = nil, nil
+		}
 	}
 	if c.Size == 0 || c.AgeMs == 0 {
 		c.FailQuery = nil // without batching a failed query is an error returned by LogUnpin: not a case of this stream
@@ -380,6 +414,9 @@ func vC02BRun(t *testing.T, c vC02BCase) (obs vC02BObs, ranks *vc02Ranks) {
 	}
 	var vals [][]byte
 	for _, s := range c.Steps {
+		if s.T == "restart" && !c.trickle() {
+			vals = append(vals, vc02PinBytes(vc02Pin(s.C, s.V)))
+		}
 		if s.T == "pin" && !(s.Bad && !c.trickle()) {
 			pn, _ := mkPin(s)
 			vals = append(vals, vc02PinBytes(pn))
@@ -528,6 +565,41 @@ func vC02BRun(t *testing.T, c vC02BCase) (obs vC02BObs, ranks *vc02Ranks) {
 				if !settle() {
 					markStuck()
 				}
+			}
+		case "restart":
+			var late *vc02Ev
+			lateID := id
+			p.restart(t, func(old *Consensus) {
+				if !batching {
+					return
+				}
+				// an operation logged after Shutdown must be refused: nobody will ever take it from the queue
+				pn := vc02Pin(s.C, s.V)
+				op := &vc02Op{Pin: true, C: s.C, V: s.V, R: ranks.of(vc02PinBytes(pn))}
+				late = &vc02Ev{Kind: "enq", ID: lateID, Op: op, At: since(), done: true}
+				err := vc02Guard(&obs, "LogPin after Shutdown", func() error {
+					return old.LogPin(context.WithValue(ctx, vc02CtxKey{}, lateID), pn)
+				})
+				switch {
+				case err == nil:
+					late.Ok = true
+				case errors.Is(err, ErrMaxQueueSizeReached):
+				default:
+					late.Kind = "shutref"
+				}
+			})
+			if batching {
+				g := p.g
+				g.mu.Lock()
+				if late != nil {
+					g.trace = append(g.trace, late)
+					id++
+				}
+				g.trace = append(g.trace, &vc02Ev{Kind: "restart", At: since(), done: true})
+				nAccepted = g.nAddDone // the new worker knows nothing of what the old one left behind
+				g.mu.Unlock()
+			} else {
+				trace = append(trace, &vc02Ev{Kind: "restart", At: since(), done: true})
 			}
 		case "wait": // not generated (given inputs only): let the age timer of an empty batch expire; bounded
 			if batching && age < time.Minute {
@@ -857,6 +929,12 @@ func vC02BTerm(c vC02BCase, obs vC02BObs) string {
 			ev = fmt.Sprintf("TEnq %d %s %s", e.ID, vc02CoqOp(e.Op), cqBool(e.Ok))
 		case "reject":
 			ev = fmt.Sprintf("TReject %d %s", e.ID, vc02CoqOp(e.Op))
+		case "shutref":
+			ev = fmt.Sprintf("TShutRefused %d %s", e.ID, vc02CoqOp(e.Op))
+		case "stopcommit":
+			ev = "TStopCommit " + vc02CoqPres(e.Pres)
+		case "restart":
+			ev = "TRestart"
 		case "add":
 			ev = fmt.Sprintf("TAdd %d %s", e.ID, cqBool(e.Ok))
 		case "commit":
@@ -1013,6 +1091,12 @@ func TestVerifC02Batch(t *testing.T) {
 				out.count("refused")
 			case e.Kind == "reject":
 				out.count("rejected_unserialisable")
+			case e.Kind == "restart":
+				out.count("restart")
+			case e.Kind == "stopcommit":
+				out.count("commit_on_shutdown")
+			case e.Kind == "shutref":
+				out.count("refused_after_shutdown")
 			case e.Kind == "enq" && e.Op != nil && e.Op.Pin && e.Op.R == 0:
 				out.count("accepted_unserialisable")
 			case e.Kind == "add" && !e.Ok:
